@@ -380,6 +380,36 @@ PROPS = {
         trusted=["float parsing of decimal64 default literals via the float oracle"],
         partial="c33_valid only under defaults_ok (c33_valid_partial); refuted: c33_refuted_two_cases, c33_refuted_one_case, c33_refuted_container_in_case; presence containers are instantiated.",
     ),
+    "C11": dict(
+        level="proof",
+        technique="Coq effect model (write set of every API over the cells of its arguments, frame/sequence theorem by induction over operation lists) + snapshot correspondence (changed-cell sets EQUAL, TypedValue after SetNode equal)",
+        claim="writes is a subset of the documented outputs for every API and every argument (c11_fixed for the code as repaired; c11_now_partial/c11_refuted document the pre-repair code with its "
+              "three witnesses); per-API c11_<api>_pure; SetNode without tolerance never touches the TypedValue for any target/payload (c11_SetNode_strict_pure); schema entries, decoded JSON, "
+              "paths and source trees are in no write set; sequences of operations with empty write sets leave every cell unchanged (c11_sequence_frame).",
+        note="Trusted: Coq kernel; the write-set table and the transcription of gNMIToYANGTypeMatches/sanitizeGNMI/unmarshalUnion/unmarshalLeafList/populateUpdate control flow, tied by the "
+             "'purity' stream (17 APIs x 7 packages); snapshots = canonical reflective dump incl. slice spare capacity, unexported fields, whole yang.Entry graph; a write-then-restore is "
+             "invisible to snapshots; per-update gnmidiff outcomes are measured by isolated dry runs.",
+        coq_files=["Heap/Effects", "Heap/EffectsProofs", "Corr/EffectsCorr"],
+        streams=[dict(name="purity", n=N(1500, 12000))],
+        signatures=["mutates"],
+        trusted=["TvString stands for a string that is no enum name of the target (generator invariant)"],
+        partial="pointer-identity changes and write-then-restore are not observable; the effect model is table-like: its force comes from the equality check against snapshots on every run.",
+    ),
+    "C21": dict(
+        level="proof",
+        technique="Coq interleaving semantics of the regexp-cache RW-lock protocol (induction over ALL schedules) + generic disjoint-footprint theorem + C11 write sets as the read-only premise; race detector (-race) search over shared inputs",
+        claim="c21_cache_drf (lock invariant; a pending map write excludes every other map access), c21_cache_results (every result = compile p; cache a sub-graph of compile), c21_cache_complete, "
+              "c21_cache_progress for any number of goroutines, pattern lists, initial cache and ANY schedule; c21_readers / c21_disjoint_footprints (threads that only read shared cells return "
+              "their sequential results in every interleaving); c21_schema_readonly. Real code: K goroutines x randomized GOMAXPROCS on shared tree/schema/messages under the race detector, "
+              "results compared with sequential runs; cache rounds are re-computed by the model.",
+        note="Outside Coq (the property is partly about the runtime): the Go memory model, the scheduler, the race detector's coverage (only executed interleavings), sync.RWMutex itself "
+             "(modelled as reader count + writer flag); regexp.Compile is a section parameter; util/debug.go globals are off.",
+        coq_files=["Conc/Cache", "Conc/CacheProofs", "Heap/Effects", "Heap/EffectsProofs", "Corr/CacheCorr", "Corr/EffectsCorr"],
+        streams=[dict(name="race", n=N(60, 600)), dict(name="purity", n=N(1500, 12000))],
+        signatures=["race", "schedule-dependent", "mutates-global"],
+        trusted=["second driver binary built with go build -race (CGO)", "accessor harness_accessors/ytypes/c21_acc.go"],
+        partial="the race search is a test, not a proof; a same-value or write-then-restore race is not exhibited by the model.",
+    ),
 }
 
 NOT_APPLICABLE = {}
